@@ -1,7 +1,7 @@
 (* C02 — streaming verdicts are final; prefixes of a response are 'incomplete'.
    parse is the model of imap_proto::Response::from_bytes over the grammar regenerated from /repo. *)
 From TI Require Import Bytes Grammar Nom Interp InterpFacts Thm_Stable Natives Proofs_C02.
-From TI.gen Require Import ImapGrammar.
+From TI.gen Require Import Tables ImapGrammar.
 
 (* reflection obligation over the regenerated grammar: only streaming nom primitives are used *)
 Theorem c02_streaming_only : env_all node_streaming all_defs = true.
@@ -50,3 +50,9 @@ Check c02_every_parser_stable : forall f g fuel dp i X r v u,
   run native_call env (S (length i)) fuel g dp i = ROk r v u ->
   run native_call env (S (length (i ++ X))) fuel g dp (i ++ X) = ROk (r ++ X) v u.
 Print Assumptions c02_every_parser_stable.
+
+(* the public entry point Response::from_bytes is exactly the modelled parser: its body is the call and nothing else *)
+Theorem c02_entry_point_is_parse_response : gen_from_bytes_body = "crate::parser::parse_response(buf)"%string.
+Proof. reflexivity. Qed.
+Check c02_entry_point_is_parse_response : gen_from_bytes_body = "crate::parser::parse_response(buf)"%string.
+Print Assumptions c02_entry_point_is_parse_response.
